@@ -1778,7 +1778,12 @@ impl<'a, const C: usize, const R: usize, T: 'a + Copy + std::fmt::Debug> Layout<
             &OneShotIgnoreEventsTicks(ticks) => {
                 self.last_press_tracker.update_coord(coord);
                 self.rpt_action = Some(action);
-                self.oneshot.ticks_to_ignore_events = ticks;
+                // The countdown only runs (and is only cleared) while a one-shot is active, so
+                // only start it then. Otherwise the value stays armed indefinitely and swallows
+                // the key presses that should end some later one-shot activation.
+                if !self.oneshot.keys.is_empty() {
+                    self.oneshot.ticks_to_ignore_events = ticks;
+                }
             }
             &TapDance(td) => {
                 self.last_press_tracker.update_coord(coord);
